@@ -94,7 +94,7 @@ def count(ctx, recs):
             ctx.count_class((r["f"], r["S"], r["D"], r["n"], "nothing" if r["r"] == [] else "value", "wide"))
         else:
             n += 1
-            shape = tuple(str(r.get(k)) for k in ("k", "kind", "op", "g", "sk", "dyn", "target", "p", "it", "max", "n", "eofbit", "failbit", "badbit"))
+            shape = tuple(str(r.get(k)) for k in ("k", "fn", "kind", "op", "g", "sk", "dyn", "target", "p", "it", "max", "n", "eofbit", "failbit", "badbit"))
             size = len(r.get("xs", r.get("s", r.get("argv", r.get("rest", [])))))
             ctx.count_class((r["f"], r["out"], shape, min(size, 4)))
     ctx.extra["registry_functions"] = sorted(fns)
